@@ -230,6 +230,42 @@ class Req:
         self.reply_ctx = None
 
 
+ENC_ALGO = "x_c04"
+ENC_KEYS = ("enc_algo", "enc_serializer", "enc_key")
+
+
+def enc_pack(uri, args, kwargs):
+    """Payload-transparency envelope of the stub codec (also what the scripted router produces / opens): CBOR of uri + payload."""
+    import cbor2
+    return b"C04:" + cbor2.dumps({"uri": uri, "args": list(args or []), "kwargs": dict(kwargs or {})})
+
+
+def enc_unpack(payload):
+    import cbor2
+    if not isinstance(payload, (bytes, bytearray)) or bytes(payload[:4]) != b"C04:":
+        raise ValueError("not a C04 envelope")
+    d = cbor2.loads(bytes(payload[4:]))
+    return d["uri"], d["args"], d["kwargs"]
+
+
+class C04Codec:
+    """Trivial IPayloadCodec: 'payload transparency' without cryptography (enc_algo x_c04)."""
+
+    def __init__(self):
+        self.encoded = 0
+        self.decoded = 0
+
+    def encode(self, is_originating, uri, args=None, kwargs=None):
+        from autobahn.wamp.types import EncodedPayload
+        self.encoded += 1
+        return EncodedPayload(enc_pack(uri, args, kwargs), ENC_ALGO, enc_serializer="cbor")
+
+    def decode(self, is_originating, uri, encoded_payload):
+        self.decoded += 1
+        u, a, k = enc_unpack(encoded_payload.payload)
+        return u, a, k
+
+
 class ObjGroup:
     """One subscribe(obj) / register(obj) call: several requests, ONE returned future (a list of per-request results)."""
 
@@ -326,6 +362,7 @@ class Run:
         self.orphan_ids = set()
         self.local_unsubs = 0
         self.inflight_seen = False
+        self.cancel_absorbed = False
         self.sync_plan = None
         self.groups = []
         self.nested_issued = []
@@ -352,6 +389,10 @@ class Run:
         self.s = self.rp.session
         if not hello or hello[0] != 1 or self.s is None or self.s._session_id is None:
             raise RuntimeError("harness: session did not join: %r" % (hello,))
+        self.codec = None
+        if cfg.get("codec"):
+            self.codec = C04Codec()
+            self.s.set_payload_codec(self.codec)
         start_at = cfg.get("id_start")
         if start_at is not None:
             gen = getattr(self.s, "_request_id_gen", None)
@@ -380,7 +421,7 @@ class Run:
     def model_sizes(self):
         sz = dict(self.tolerated)
         for r in self.reqs.values():
-            if r.status == "pending":
+            if r.status in ("pending", "cancelled"):
                 sz[r.kind] += 1
         return sz
 
@@ -399,7 +440,8 @@ class Run:
                        "session.%s holds %d entries, the model expects %d (%s)" % (TABLE[k], len(t), want[k], where),
                        keys=sorted(t.keys())[:10])
 
-    def diff(self, snap, target=None, completes=0, progress=0, calls_for=None, what="message", msg=None, targets=None, tolerate_calls=()):
+    def diff(self, snap, target=None, completes=0, progress=0, calls_for=None, what="message", msg=None, targets=None, tolerate_calls=(),
+             tolerate_progress=()):
         """After one router message: only ``target`` (or the ``targets`` {label: completions}) may have changed, exactly as predicted."""
         ok = True
         if targets is None:
@@ -416,6 +458,8 @@ class Run:
             wh = 1 if (l in calls_for if isinstance(calls_for, (set, frozenset, list, tuple)) else l == calls_for) else 0
             if l in tolerate_calls and dh in (0, 1):
                 wh = dh
+            if l in tolerate_progress and dp in (0, 1):
+                wp = dp
             if dc != wc:
                 ok = False
                 if l in targets:
@@ -845,16 +889,38 @@ class Run:
             return
         if m[3] != rq.spec["uri"]:
             self.v("%s/request/uri" % kind, "URI on the wire %r differs from the given %r" % (m[3], rq.spec["uri"]))
+        wire_opts = dict(m[2])
+        encoded = None
+        if self.codec is not None and kind in ("call", "publish"):
+            # payload transparency: [.., options + enc_*, uri, payload octets]; everything else must be as without a codec
+            self.R.count("codec_requests_compared")
+            if len(m) != 5 or not isinstance(m[4], (bytes, bytearray)) or wire_opts.get("enc_algo") != ENC_ALGO:
+                self.v("%s/request/codec/payload-not-encoded" % kind, "a payload codec is set, but the request carries %s / options %s" % (
+                    short(m[4:]), short(m[2])))
+                return
+            try:
+                encoded = enc_unpack(m[4])
+            except Exception as e:
+                self.v("%s/request/codec/payload-garbled" % kind, "payload octets are not what the codec produced: %r" % (e,))
+                return
+            for k in ENC_KEYS:
+                wire_opts.pop(k, None)
+        elif any(k in wire_opts for k in ENC_KEYS):
+            self.v("%s/request/options/enc_algo" % kind, "payload-transparency attributes without a codec: %s" % short(m[2]))
         want = norm_options(kind, expected_options(kind, opts))
-        got = norm_options(kind, m[2])
+        got = norm_options(kind, wire_opts)
         if not strict_eq(want, got):
             bad = sorted(k for k in set(want) | set(got) if k not in want or k not in got or not strict_eq(want[k], got[k]))
-            self.v("%s/request/options/%s" % (kind, "+".join(bad)), "options on the wire %s, the API call gave %s (expected wire %s)" % (
+            self.v("%s/request/options/%s" % (kind, bad[0] + ("+others" if len(bad) > 1 else "")), "options on the wire %s, the API call gave %s (expected wire %s)" % (
                 short(m[2]), short(opts), short(want)))
         self.R.count("options_compared")
         if kind in ("call", "publish"):
             wargs = m[4] if len(m) > 4 else []
             wkw = m[5] if len(m) > 5 else {}
+            if encoded is not None:
+                if encoded[0] != rq.spec["uri"]:
+                    self.v("%s/request/codec/uri" % kind, "codec was given URI %r for a request to %r" % (encoded[0], rq.spec["uri"]))
+                wargs, wkw = encoded[1], encoded[2]
             if not isinstance(wargs, list) or not isinstance(wkw, dict):
                 self.v("%s/request/malformed-payload" % kind, "args/kwargs elements are %s" % short(m[4:]))
                 return
@@ -950,10 +1016,16 @@ class Run:
             tail.append(args if args is not None else [])
             if kwargs is not None:
                 tail.append(kwargs)
+        enc = {}
+        if self.codec is not None and st.get("enc") and (mode == "error" or rq.kind == "call"):
+            # the peer used payload transparency too: details carry enc_*, the payload is one octet string
+            enc = {"enc_algo": ENC_ALGO, "enc_serializer": "cbor"}
+            tail = [enc_pack(st["error"] if mode == "error" else rq.spec["uri"], args, kwargs)]
+            self.R.count("codec_replies_encoded")
         if mode == "error":
-            return [8, REQ_CODE[rq.kind], rq.wid, dict(st.get("details") or {}), st["error"]] + tail, args, kwargs
+            return [8, REQ_CODE[rq.kind], rq.wid, dict(st.get("details") or {}, **enc), st["error"]] + tail, args, kwargs
         if rq.kind == "call":
-            d = dict(st.get("details") or {})
+            d = dict(st.get("details") or {}, **enc)
             if mode == "progress":
                 d["progress"] = True
             return [50, rq.wid, d] + tail, args, kwargs
@@ -971,6 +1043,8 @@ class Run:
     def do_reply(self, st):
         R = self.R
         rq = self.reqs.get(st["to"])
+        if rq is not None and rq.status == "cancelled" and rq.wid is not None:
+            return self.do_reply_to_cancelled(rq, st)
         if rq is None or rq.status != "pending" or rq.wid is None:
             R.count("skipped_steps")
             return
@@ -1035,8 +1109,97 @@ class Run:
                 R.count("replies_%s_%s" % ("ok" if mode == "ok" else "error", rq.kind))
                 if self.inflight_seen:
                     R.count("own_reply_completions_after_inflight_delivery")
+                if self.cancel_absorbed:
+                    R.count("own_reply_completions_after_absorbed_reply")
             R.seen("reply_shapes", "%s:%s:%s" % (rq.kind, mode, self.shape_class(args, kwargs)))
         self.check_tables("after %s for %s" % (what, rq.kind))
+
+    # -- call cancellation ----------------------------------------------------------------------------------------------
+    def do_cancel(self, st):
+        """The application cancels the pending result of a call: exactly one CANCEL with the call's id goes out (none for a repeated
+        cancel), the future completes once - cancelled -, nothing else changes; the call's record stays until the router's terminal reply."""
+        R = self.R
+        rq = self.reqs.get(st["to"])
+        if rq is None or rq.kind != "call" or rq.fut is None or rq.status not in ("pending", "cancelled") or rq.wid is None:
+            R.count("skipped_steps")
+            return
+        again = rq.status == "cancelled"
+        snap = self.snap()
+        try:
+            rq.fut.cancel()
+        except Exception as e:
+            self.v("call/cancel/raised/%s" % type(e).__name__, "cancel() of the returned future raised %r" % (e,))
+            self.dead = True
+            return
+        self.world_settle()
+        msgs = self.rp.recv()
+        R.count("cancels_issued")
+        cancels = [m for m in msgs if isinstance(m, list) and m and m[0] == 49]
+        other = [m for m in msgs if m not in cancels]
+        if other:
+            self.v("call/cancel/unexpected-wire-message", "cancel() made the session send %s" % short(other))
+        if again:
+            if cancels:
+                self.v("call/cancel/second-CANCEL", "cancelling an already cancelled call sent CANCEL again", msgs=short(cancels))
+            self.diff(snap, what="repeated-cancel")
+            R.count("repeated_cancels_checked")
+        else:
+            if len(cancels) != 1:
+                self.v("call/cancel/%s" % ("CANCEL-not-sent" if not cancels else "CANCEL-sent-%d-times" % len(cancels)),
+                       "expected exactly one CANCEL for the cancelled call, saw %s" % short(msgs))
+            else:
+                c = cancels[0]
+                if len(c) != 3 or not isinstance(c[2], dict) or c[2].get("mode", "kill") not in ("skip", "kill", "killnowait"):
+                    self.v("call/cancel/malformed-CANCEL", "CANCEL on the wire is %s" % short(c))
+                elif not strict_eq(c[1], rq.wid):
+                    self.v("call/cancel/wrong-id", "CANCEL names request %r, the call went out with id %r" % (c[1], rq.wid))
+                else:
+                    R.count("cancel_messages_compared")
+                    R.seen("cancel_modes", str(c[2].get("mode")))
+            if self.diff(snap, target=rq.label, completes=1, what="cancel"):
+                tag, val = rq.outcome.results[-1]
+                if tag != "err" or not ("cancel" in type(val).__name__.lower() or "cancel" in str(val).lower()):
+                    self.v("call/cancel/not-cancelled", "after cancel() the future shows %s" % short(rq.outcome.results[-1]))
+            rq.status = "cancelled"
+        f = self.failed()
+        if f:
+            self.v("call/cancel/transport-failed", "transport failed on cancel(): %r" % (f,))
+            self.dead = True
+        self.check_tables("after cancel")
+
+    def do_reply_to_cancelled(self, rq, st):
+        """RESULT / ERROR / progressive RESULT for a call the application has cancelled (the reply crossed the CANCEL, or the router does
+        not support cancelling): absorbed - the future stays cancelled, nothing else changes, the transport stays up."""
+        R = self.R
+        mode = st["mode"]
+        if mode == "progress" and not (rq.spec.get("opts") or {}).get("on_progress"):
+            R.count("skipped_steps")
+            return
+        msg, args, kwargs = self.build_reply(rq, st)
+        what = "reply-%s-after-cancel" % mode
+        outstanding = [r for r in self.reqs.values() if r.status == "pending"]
+        snap = self.snap()
+        self.rp.send(msg)
+        self.nontrivial = True
+        f = self.failed()
+        if f:
+            self.v("call/%s/transport-failed" % what, "a reply for a cancelled call failed the transport: %r (outstanding: %s)" % (
+                f, sorted(r.kind for r in outstanding)), msg=short(msg))
+            self.dead = True
+            return
+        extra = self.rp.recv()
+        if extra:
+            self.v("call/%s/unexpected-wire-message" % what, "the session sent messages in reaction to a reply", msgs=short(extra))
+        self.diff(snap, what=what, msg=msg, tolerate_progress=(rq.label,) if mode == "progress" else ())
+        R.count("replies_to_cancelled_call")
+        R.seen("cancelled_call_replies", mode)
+        R.count("outstanding_across_reply_to_cancelled", len(outstanding))
+        if mode != "progress":
+            rq.status = "answered"
+            rq.final_msg = msg
+            rq.final_mode = mode
+            self.cancel_absorbed = True
+        self.check_tables("after %s" % what)
 
     def check_progress(self, rq, args, kwargs, st, opts):
         from autobahn.wamp.types import CallResult
@@ -1175,6 +1338,9 @@ class Run:
         args = [jd(x) for x in st.get("args") or []]
         kwargs = {k: jd(x) for k, x in (st.get("kwargs") or {}).items()}
         msg = [36, rq.assigned, st["pubid"], {}] + ([args, kwargs] if kwargs else ([args] if args else []))
+        if self.codec is not None and st.get("enc"):
+            msg = [36, rq.assigned, st["pubid"], {"enc_algo": ENC_ALGO, "enc_serializer": "cbor"}, enc_pack(rq.spec["uri"], args, kwargs)]
+            self.R.count("codec_replies_encoded")
         snap = self.snap()
         if st.get("then") and st["then"]["n"] not in self.reqs:
             self.arm_nested(rq, "handler", st["then"])
@@ -1354,6 +1520,8 @@ class Run:
                     self.do_event(st)
                 elif op == "invoke":
                     self.do_invoke(st)
+                elif op == "cancel":
+                    self.do_cancel(st)
                 elif op == "violate":
                     self.do_violate(st)
                 else:
